@@ -254,7 +254,7 @@ St0 == [ev |-> <<>>, exc |-> <<"none">>]
 Exec(doc, root, pol) ==
   IF root.k = "leaf" THEN
        LET r == LoadLeaf(doc, root.t, pol) IN
-       IF r[1] = "err" THEN [ev |-> <<<<"root", Prior(root.t)>>>>, exc |-> <<"ser", r[2]>>]
+       IF r[1] = "err" THEN [ev |-> <<>>, exc |-> <<"ser", r[2]>>]     \* the state of a partly loaded target is not specified
        ELSE IF r[1] \in {"any", "nonfinite"} THEN LeafAny(St0)
        ELSE [ev |-> <<<<"root", IF r[1] = "val" THEN r[2] ELSE Prior(root.t)>>>>, exc |-> <<"none">>]
   ELSE LET want == IF root.k = "obj" THEN "map" ELSE "arr"
